@@ -501,7 +501,12 @@ func (h *hist) setKeys(ents []keyEnt, storm *bool) error {
 	h.soonAt = time.Time{}
 	now := time.Now().Round(0)
 	vals := []string{}
+	// fresh key strings differ from each other and from every string of the previous configuration (so
+	// that "the string of the old entry i" is configured now exactly if entry i takes it over)
 	used := map[string]bool{}
+	for _, k := range h.prevKeys {
+		used[k.key] = true
+	}
 	for i, e := range ents {
 		var k string
 		if e.Reuse && i < len(h.prevKeys) {
